@@ -27,6 +27,8 @@ Clauses (each names the sentence of the statement that licenses it)
   sounding-equal        "the sounding notes of the merged part equal those of the score-level note
                         array" (direct comparison of the two arrays)
   single-identity/-unchanged  "A single part (or a group or list holding one) is returned as is"
+The convenience loader `load_score_as_part` (anchor) is run on written MusicXML files in sub-space
+`loader` with the divisions, registration, voice and note-array clauses.
 """
 import itertools
 import re
@@ -200,7 +202,7 @@ def close32(obs, ref):
     return abs(float(obs) - r) <= 1e-6 * max(1.0, abs(r))
 
 
-def check_merged(res, case, merged, S, stats):
+def check_merged(res, case, merged, S, stats, elements=True):
     parts = case["parts"]
     mode = case["mode"]
     L = lcm_all([pdivs(p) for p in parts])
@@ -221,6 +223,8 @@ def check_merged(res, case, merged, S, stats):
 
     # --- registration and element table
     objs = check_registration(res, merged)
+    if not elements:  # (a part read back from a file: the element table is the importer's business)
+        return check_notes(res, case, merged, S, objs, L)
     # public view, class by class (iter_all() without a class enumerates every subclass of object per point)
     classes = sorted({type(o) for o in objs}, key=lambda c: c.__name__)
     ok, pub = guarded(res, "registration", lambda: [o for c in classes for o in merged.iter_all(c)])
@@ -251,7 +255,12 @@ def check_merged(res, case, merged, S, stats):
             res.fail("elements-extra", expected="no further elements", observed=sorted(fmt_item(x) for x in ex_other)[:6],
                      where="merge_parts: elements", detail="mode=%s" % mode)
     stats["elements"] = sum(observed.values())
+    return check_notes(res, case, merged, S, objs, L)
 
+
+def check_notes(res, case, merged, S, objs, L):
+    parts = case["parts"]
+    mode = case["mode"]
     # --- voices / staves
     gobjs = {}
     for o in objs:
@@ -293,7 +302,8 @@ def check_merged(res, case, merged, S, stats):
                     os_ = o.staff
                     if ov is not None and int(r["voice"]) != int(ov):
                         bad.append((nid, "voice column", int(r["voice"]), "object voice", int(ov)))
-                    if int(r["staff"]) != (int(os_) if os_ else 0):
+                    # (how a missing staff is shown in the array is not this property's business)
+                    if (int(r["staff"]) != int(os_)) if os_ is not None else (int(r["staff"]) not in (0, 1)):
                         bad.append((nid, "staff column", int(r["staff"]), "object staff", _i(os_)))
             if bad:
                 res.fail("merged-note-array", expected="reference rows at lcm %d" % L, observed=bad[:4],
@@ -314,16 +324,25 @@ def check_score_array(res, case, sna, merged_rows):
         res.fail("score-note-array", expected=sorted(ref), observed=sorted(str(r["id"]) for r in sna),
                  where="note_array_from_part_list", detail="ids of the sounding notes")
         return
-    bad = []
-    for nid in sorted(ref):
-        pi, on, du, pitch, v, st = ref[nid]
-        r = rows[nid][0]
-        exp = (int(on * Ln), int(du * Ln), pitch, Ln)
-        got = (int(r["onset_div"]), int(r["duration_div"]), int(r["pitch"]), int(r["divs_pq"]))
-        if exp != got or not close32(r["onset_quarter"], on) or not close32(r["duration_quarter"], du):
-            bad.append((nid, "expected (onset_div, duration_div, pitch, divs_pq, onset_q, duration_q)",
-                        list(exp) + [str(on), str(du)], "observed",
-                        list(got) + [float(r["onset_quarter"]), float(r["duration_quarter"])]))
+    # common unit of the division columns: the lcm of the parts that have notes (what the code does)
+    # or the lcm of all parts -- one of them, for all rows
+    bad = None
+    for U in ([Ln] if Ln == L else [Ln, L]):
+        cur = []
+        for nid in sorted(ref):
+            pi, on, du, pitch, v, st = ref[nid]
+            r = rows[nid][0]
+            exp = (int(on * U), int(du * U), pitch, U)
+            got = (int(r["onset_div"]), int(r["duration_div"]), int(r["pitch"]), int(r["divs_pq"]))
+            if exp != got or not close32(r["onset_quarter"], on) or not close32(r["duration_quarter"], du):
+                cur.append((nid, "expected (onset_div, duration_div, pitch, divs_pq, onset_q, duration_q)",
+                            list(exp) + [str(on), str(du)], "observed",
+                            list(got) + [float(r["onset_quarter"]), float(r["duration_quarter"])]))
+        if not cur:
+            bad = None
+            break
+        if bad is None:
+            bad = cur
     if bad:
         res.fail("score-note-array", expected="reference rows at lcm %d" % Ln, observed=bad[:4],
                  where="note_array_from_part_list", detail="divisions=%s" % [pdivs(p) for p in parts])
@@ -334,7 +353,7 @@ def check_score_array(res, case, sna, merged_rows):
             ka = (float(a["onset_quarter"]), float(a["duration_quarter"]), int(a["pitch"]))
             kb = (float(b["onset_quarter"]), float(b["duration_quarter"]), int(b["pitch"]))
             same = close32(ka[0], kb[0]) and close32(ka[1], kb[1]) and ka[2] == kb[2]
-            if L == Ln:
+            if int(b["divs_pq"]) == L:
                 same = same and int(a["onset_div"]) == int(b["onset_div"]) and int(a["duration_div"]) == int(b["duration_div"])
             if not same:
                 diff.append((nid, "merged", [int(a["onset_div"]), int(a["duration_div"])] + list(ka),
@@ -372,12 +391,48 @@ def eval_single(case, res):
     return res
 
 
+def eval_loader(case, res):
+    """load_score_as_part: the score is written as MusicXML (one <divisions> per part), read back and merged
+    by the convenience loader (default mode 'voice'); notes are identified by their ids"""
+    import os
+    import shutil
+    import tempfile
+
+    import partitura
+    import partitura.score as S
+    from mc.ir import build_part
+
+    score = S.Score([build_part(p) for p in case["parts"]], id="sc")
+    tmp = tempfile.mkdtemp(prefix="c15-")
+    try:
+        fn = os.path.join(tmp, "s.musicxml")
+        ok, _ = guarded(res, "loader-export", partitura.save_musicxml, score, fn)
+        res.transitions = 1
+        if not ok:
+            res.outcome = "loader:export-exception"
+            return res
+        ok, merged = guarded(res, "merge", partitura.load_score_as_part, fn)
+        res.transitions += 1
+    finally:
+        shutil.rmtree(tmp, ignore_errors=True)
+    if not ok:
+        res.outcome = "loader:exception"
+        return res
+    check_merged(res, case, merged, S, {}, elements=False)
+    res.transitions += 1
+    res.nontrivial = True
+    res.outcome = "loader:n%d:%s" % (len(case["parts"]), "ok" if not res.violations else "viol")
+    return res
+
+
 def eval_case(case):
     import partitura.score as S
     from mc.ir import build_part
 
     res = CaseResult(states=1, transitions=0, traces=1)
     parts_spec = case["parts"]
+    if case["shape"] == "file-musicxml":
+        return eval_loader(case, res)
     if len(parts_spec) == 1:
         return eval_single(case, res)
     mode = case["mode"]
@@ -396,7 +451,7 @@ def eval_case(case):
         parts2 = [build_part(p) for p in parts_spec]
         arg2 = M.make_container(case["shape"], parts2, S)
         holder = arg2 if isinstance(arg2, (S.Score, S.PartGroup)) else S.Score(list(parts2), id="sc")
-        ok2, sna = guarded(res, "score-note-array", holder.note_array, include_staff=True)
+        ok2, sna = guarded(res, "score-note-array", holder.note_array, include_staff=True, include_divs_per_quarter=True)
         res.transitions += 1
         if ok2:
             check_score_array(res, case, sna, rows)
@@ -856,6 +911,27 @@ def gen_off_note():
     return g
 
 
+def loader_content(i, d, v):
+    """complete 4/4 measures (so that the file has no pickup), off-quarter joints, distinct ids"""
+    n = lambda j: M.pid_note(i, j)
+    a, b, c = STEPS[(3 * i) % 7], STEPS[(3 * i + 1) % 7], STEPS[(3 * i + 2) % 7]
+    o = 4 + i % 2
+    if v == 0:
+        return [note(n(0), 0, 1, a, o, 1, 1), note(n(1), 1, 4 * d, b, o, 1, 1)]
+    if v == 1:
+        return [note(n(0), 0, 4 * d, a, o, 1, 1), note(n(1), 0, 1, b, o, 2, 1), note(n(2), 1, 4 * d, c, o, 2, 1)]
+    return [note(n(0), 0, 2 * d, a, o, 1, 1), note(n(1), 0, 2 * d, b, o, 1, 1), note(n(2), 2 * d, 4 * d, c, o, 1, 1)]
+
+
+def gen_loader():
+    def g():
+        for ds in [(1, 1), (1, 2), (2, 3), (3, 2), (4, 6), (3, 4), (6, 4), (1, 2, 3), (2, 3, 4), (6, 6, 4)]:
+            for v in (0, 1, 2):
+                parts = [part_spec(i, d, loader_content(i, d, v), kinds=("ts", "measure", "ks", "clef")) for i, d in enumerate(ds)]
+                yield mk("file-musicxml", "voice", parts, "loader:%d" % v)
+    return g
+
+
 def spaces(tier, seed):
     th = tier == "thorough"
     sp = []
@@ -896,6 +972,9 @@ def spaces(tier, seed):
     sp.append(Space("single", gen_single(), True,
                     "one part in 8 container shapes (Part, list, tuple, group, list of group, nested group, Score, Score of group) x 3 "
                     "modes x 12 event groups x structure on/off x divisions {1,6}"))
+    sp.append(Space("loader", gen_loader(), True,
+                    "load_score_as_part on a MusicXML file written from 2-3 parts: 10 divisions tuples x 3 contents (one voice, two "
+                    "voices, chord) filling one 4/4 measure; divisions, time points, note array and voice classes of the result"))
     sp.append(Space("many-voices", gen_many_voices(), True,
                     "a part with k voices (auto: k in 3..6; voice, staff: k = 5) on one staff / no staff / two staves / four voices per "
                     "staff, next to parts with 1..2 voices, in first, second or middle position"))
